@@ -187,7 +187,8 @@ impl<'a> B<'a> {
                     // incl. a JSON STRING whose text is the well-formed disclosure array (serialised twice)
                     let twice = json!(json!([salt, k, v]).to_string());
                     let twice_ws = json!(format!(" {}", json!([salt, k, v])));
-                    self.r.pick(&[json!({"salt": "s"}), json!("str"), json!(5), json!(null), twice.clone(), twice, twice_ws]).clone()
+                    let indexed = json!({"0": salt, "1": k, "2": v});
+                    self.r.pick(&[json!({"salt": "s"}), json!("str"), json!(5), json!(null), twice.clone(), twice, twice_ws, indexed.clone(), indexed]).clone()
                 } else if self.dev("name-nonstring") {
                     let nm = self.r.pick(&[json!(5), json!(null), json!(["a"]), json!({"a": 1}), json!(true)]).clone();
                     json!([salt, nm, v])
@@ -330,7 +331,8 @@ impl<'a> B<'a> {
                     Value::Array(a)
                 } else if self.dev("elem-nonarray") {
                     let twice = json!(json!([salt, v]).to_string());
-                    self.r.pick(&[json!("str"), json!({"a": 1}), json!(null), json!(3), twice.clone(), twice]).clone()
+                    let indexed = json!({"0": salt, "1": v});
+                    self.r.pick(&[json!("str"), json!({"a": 1}), json!(null), json!(3), twice.clone(), twice, indexed.clone(), indexed]).clone()
                 } else {
                     json!([salt, v])
                 };
@@ -341,7 +343,11 @@ impl<'a> B<'a> {
                     self.discs.push(d);
                 }
                 if self.dev("placeholder-extra") {
-                    out.push(json!({"...": h, "x": 1}));
+                    if self.r.chance(50) {
+                        out.push(json!({"...": h, "x": 1}));
+                    } else {
+                        out.push(json!({"note": "x", "...": h}));
+                    }
                 } else if self.dev("placeholder-nonstring") {
                     out.push(self.r.pick(&[json!({"...": 5}), json!({"...": null}), json!({"...": ["x"]})]).clone());
                 } else if present && self.dev("digest-decorated-in-array") {
